@@ -184,7 +184,11 @@ def main(argv=None):
     ps.write_evidence(pid, tier, seed, level, cov, wall, violations=len(reported),
                       assumptions=getattr(mod, "ASSUMPTIONS", []))
     rc = 0
-    for key, what, obj in reported[:10]:
+    # concrete failing inputs first; a disagreement without one is only reported when nothing concrete was found
+    with_input = [r for r in reported if r[2].get("failing_input")]
+    without = [r for r in reported if not r[2].get("failing_input")]
+    reported = with_input[:10] if with_input else without[:3]
+    for key, what, obj in reported:
         obj = dict(obj)
         obj.update(property=pid, seed=seed, tier=tier, what=what)
         path = ps.write_replay(pid, obj)
